@@ -168,7 +168,8 @@ def cases(run: Run):
             m = [Fraction(rng.randint(-200, 0), 32) for _ in range(n)]
         else:
             m = [Fraction(rng.randint(0, 64), 8) for _ in range(n - 1)] + [Fraction(8)]
-        out.append({"op": "norm", "m": m})
+        # the memory layout of the metric tensor is the caller's business: C order, Fortran order, or a transposed view
+        out.append({"op": "norm", "m": m, "layout": rng.choice(["c", "c", "f", "moveaxis", "slice"])})
     for _ in range(run.n(200, 3000)):
         delta = Fraction(rng.randint(0, 64), 64)
         ms = [Fraction(rng.randint(-64, 64), 16) for _ in range(4)]
@@ -277,6 +278,15 @@ def impl_case(case):
             arr = np.zeros((len(m), 1, 4))
             arr[:, 0, 0] = [float(x) for x in m]
             arr[:, 0, 1] = 1.0
+            layout = case.get("layout", "c")
+            if layout == "f":
+                arr = np.asfortranarray(arr)
+            elif layout == "moveaxis":
+                arr = np.moveaxis(np.ascontiguousarray(np.moveaxis(arr, -1, 0)), 0, -1)
+            elif layout == "slice":
+                big = np.zeros((len(m), 2, 4))
+                big[:, :1, :] = arr
+                arr = big[:, :1, :]
             out = ro.normalizeMetrics(arr)
             return [float(x) for x in out[:, 0, 0]], [float(x) for x in out[:, 0, 1]]
 
